@@ -112,6 +112,21 @@ namespace bloch::runtime {
         return v;
     }
 
+    // A value entering a slot of declared type 't' (variable, parameter, field, result):
+    // an int widens to long as the analyser assumed, and an object reference takes the slot's
+    // static class.
+    Value RuntimeEvaluator::asDeclared(Value v, const RuntimeTypeInfo& t) const {
+        if (t.kind == Value::Type::Long && t.className.empty() && v.type == Value::Type::Int) {
+            Value w;
+            w.type = Value::Type::Long;
+            w.longValue = v.intValue;
+            return w;
+        }
+        if (!t.className.empty() && findClass(t.className))
+            return withStaticClass(std::move(v), t.className);
+        return v;
+    }
+
     static std::string valueToString(const Value& v) {
         // Pretty-print a runtime value for echo and tracked summaries.
         std::ostringstream oss;
@@ -718,6 +733,10 @@ namespace bloch::runtime {
                 // The slot keeps the static class it was declared with, whatever it currently
                 // holds: an object, null, or nothing after 'destroy'.
                 const Value& existing = fit->second.value;
+                if (existing.type == Value::Type::Long && newVal.type == Value::Type::Int) {
+                    newVal.type = Value::Type::Long;
+                    newVal.longValue = newVal.intValue;
+                }
                 if ((existing.type == Value::Type::Object || existing.type == Value::Type::Void) &&
                     (newVal.type == Value::Type::Object || newVal.type == Value::Type::Void) &&
                     !existing.className.empty()) {
@@ -733,7 +752,7 @@ namespace bloch::runtime {
             if (!m_inStaticContext && thisObj) {
                 RuntimeField* field = findInstanceField(m_currentClassCtx, name);
                 if (field && field->offset < thisObj->fields.size()) {
-                    Value newVal = v;
+                    Value newVal = asDeclared(v, field->type);
                     const Value& existing = thisObj->fields[field->offset];
                     if ((existing.type == Value::Type::Object ||
                          existing.type == Value::Type::Void) &&
@@ -747,7 +766,7 @@ namespace bloch::runtime {
             }
             auto [field, owner] = staticFieldWithOwner(m_currentClassCtx, name);
             if (field && owner && field->offset < owner->staticStorage.size()) {
-                Value newVal = v;
+                Value newVal = asDeclared(v, field->type);
                 const Value& existing = owner->staticStorage[field->offset];
                 if ((existing.type == Value::Type::Object || existing.type == Value::Type::Void) &&
                     (newVal.type == Value::Type::Object || newVal.type == Value::Type::Void) &&
@@ -1392,7 +1411,7 @@ namespace bloch::runtime {
                 beginFrame();
                 Value init = eval(field.initializer);
                 endFrame();
-                cls->staticStorage[i] = init;
+                cls->staticStorage[i] = asDeclared(std::move(init), field.type);
             }
             m_inStaticContext = prevStatic;
             m_currentClassCtx = prevClass;
@@ -1684,7 +1703,7 @@ namespace bloch::runtime {
                 thisVal.className = cls->name;
                 m_env.back()["this"] = {thisVal, false, true};
                 Value init = eval(field.initializer);
-                slot = init;
+                slot = asDeclared(std::move(init), field.type);
                 endFrame();
                 m_currentClassCtx = prevClass;
                 m_inStaticContext = prevStatic;
@@ -1723,9 +1742,8 @@ namespace bloch::runtime {
         m_env.back()["this"] = {thisVal, false, true};
         for (size_t i = 0; ctor && i < ctor->params.size() && i < args.size(); ++i) {
             {
-                std::string declared = typeInfoFromAst(ctor->params[i]->type.get()).className;
                 m_env.back()[ctor->params[i]->name] = {
-                    findClass(declared) ? withStaticClass(args[i], declared) : args[i], false, true};
+                    asDeclared(args[i], typeInfoFromAst(ctor->params[i]->type.get())), false, true};
             }
         }
 
@@ -1814,7 +1832,7 @@ namespace bloch::runtime {
                 const auto& param = ctor->params[i];
                 auto fieldMeta = findInstanceField(cls, param->name);
                 if (fieldMeta && fieldMeta->offset < obj->fields.size()) {
-                    obj->fields[fieldMeta->offset] = args[i];
+                    obj->fields[fieldMeta->offset] = asDeclared(args[i], fieldMeta->type);
                 }
             }
         }
@@ -1873,10 +1891,9 @@ namespace bloch::runtime {
         m_returnValue = {};
         for (size_t i = 0; i < method->decl->params.size() && i < args.size(); ++i) {
             {
-                const std::string& declared =
-                    i < method->params.size() ? method->params[i].className : std::string();
                 m_env.back()[method->decl->params[i]->name] = {
-                    findClass(declared) ? withStaticClass(args[i], declared) : args[i], false, true};
+                    i < method->params.size() ? asDeclared(args[i], method->params[i]) : args[i],
+                    false, true};
             }
         }
         bool prevReturn = m_hasReturn;
@@ -1892,6 +1909,19 @@ namespace bloch::runtime {
         // alive (and its destructor pending) until some later call happens to overwrite it.
         Value ret = std::move(m_returnValue);
         m_returnValue = {};
+        {
+            // the result has the method's declared return type (its owner's type arguments
+            // substituted): an int widens to long, an object takes that static class
+            std::unordered_map<std::string, RuntimeTypeInfo> subst;
+            if (method->owner) {
+                for (size_t i = 0; i < method->owner->typeParamNames.size() &&
+                                   i < method->owner->typeArgs.size();
+                     ++i)
+                    subst[method->owner->typeParamNames[i]] = method->owner->typeArgs[i];
+            }
+            ret = asDeclared(std::move(ret),
+                             typeInfoFromAst(method->decl->returnType.get(), subst));
+        }
         endFrame();
         m_hasReturn = prevReturn;
         m_currentClassCtx = prevClass;
@@ -1917,9 +1947,8 @@ namespace bloch::runtime {
         beginFrame();
         for (size_t i = 0; i < fn->params.size() && i < args.size(); ++i) {
             {
-                std::string declared = typeInfoFromAst(fn->params[i]->type.get()).className;
                 m_env.back()[fn->params[i]->name] = {
-                    findClass(declared) ? withStaticClass(args[i], declared) : args[i], false, true};
+                    asDeclared(args[i], typeInfoFromAst(fn->params[i]->type.get())), false, true};
             }
         }
         bool prevReturn = m_hasReturn;
@@ -1934,11 +1963,7 @@ namespace bloch::runtime {
         }
         Value ret = std::move(m_returnValue);
         m_returnValue = {};
-        {
-            std::string declared = typeInfoFromAst(fn->returnType.get()).className;
-            if (findClass(declared))
-                ret = withStaticClass(std::move(ret), declared);
-        }
+        ret = asDeclared(std::move(ret), typeInfoFromAst(fn->returnType.get()));
         endFrame();
         m_hasReturn = prevReturn;
         m_inDestructor = prevDtor;
@@ -2193,7 +2218,7 @@ namespace bloch::runtime {
                         }
                     }
                 } else {
-                    v = eval(var->initializer.get());
+                    v = asDeclared(eval(var->initializer.get()), typeInfoFromAst(var->varType.get()));
                     initialized = true;
                 }
             }
@@ -3379,22 +3404,19 @@ namespace bloch::runtime {
                         : nullptr;
                 if (instField) {
                     if (instField->offset < obj.objectValue->fields.size())
-                        obj.objectValue->fields[instField->offset] =
-                            findClass(instField->type.className)
-                                ? withStaticClass(rhs, instField->type.className)
-                                : rhs;
+                        obj.objectValue->fields[instField->offset] = asDeclared(rhs, instField->type);
                 } else {
                     auto [staticField, owner] =
                         obj.objectValue->cls
                             ? staticFieldWithOwner(obj.objectValue->cls, memAssign->member)
                             : std::pair<RuntimeField*, RuntimeClass*>{nullptr, nullptr};
                     if (staticField && owner && staticField->offset < owner->staticStorage.size())
-                        owner->staticStorage[staticField->offset] = rhs;
+                        owner->staticStorage[staticField->offset] = asDeclared(rhs, staticField->type);
                 }
             } else if (obj.type == Value::Type::ClassRef && obj.classRef) {
                 auto [field, owner] = staticFieldWithOwner(obj.classRef, memAssign->member);
                 if (field && owner && field->offset < owner->staticStorage.size())
-                    owner->staticStorage[field->offset] = rhs;
+                    owner->staticStorage[field->offset] = asDeclared(rhs, field->type);
             }
             return rhs;
         } else if (auto aassign = dynamic_cast<ArrayAssignmentExpression*>(e)) {
